@@ -36,6 +36,27 @@
 
 #include <pthread.h>
 
+#ifdef LIBKDUMPFILE_VERIF
+/* Verification hook (add-only; expands to nothing without the guard).
+ * kind: 0 = mutex_lock, 1 = mutex_unlock, 2 = rdlock, 3 = wrlock,
+ * 4 = rwlock unlock.  Lock events are reported after the lock has been
+ * acquired successfully, unlock events before the lock is released. */
+extern void verif_lock_event(int kind, const void *lock)
+	__attribute__((weak));
+#define VERIF_LOCK_ACQUIRE(kind, lock, call) {			\
+		int verif_ret = (call);				\
+		if (!verif_ret && verif_lock_event)		\
+			verif_lock_event((kind), (lock));	\
+		return verif_ret;				\
+	}
+#define VERIF_LOCK_RELEASE(kind, lock)				\
+	if (verif_lock_event)					\
+		verif_lock_event((kind), (lock));
+#else
+#define VERIF_LOCK_ACQUIRE(kind, lock, call)
+#define VERIF_LOCK_RELEASE(kind, lock)
+#endif
+
 typedef pthread_mutex_t mutex_t;
 typedef pthread_mutexattr_t mutexattr_t;
 
@@ -54,18 +75,21 @@ mutex_destroy(mutex_t *mutex)
 static inline int
 mutex_lock(mutex_t *mutex)
 {
+	VERIF_LOCK_ACQUIRE(0, mutex, pthread_mutex_lock(mutex))
 	return pthread_mutex_lock(mutex);
 }
 
 static inline int
 mutex_trylock(mutex_t *mutex)
 {
+	VERIF_LOCK_ACQUIRE(0, mutex, pthread_mutex_trylock(mutex))
 	return pthread_mutex_trylock(mutex);
 }
 
 static inline int
 mutex_unlock(mutex_t *mutex)
 {
+	VERIF_LOCK_RELEASE(1, mutex)
 	return pthread_mutex_unlock(mutex);
 }
 
@@ -87,18 +111,21 @@ rwlock_destroy(rwlock_t *rwlock)
 static inline int
 rwlock_rdlock(rwlock_t *rwlock)
 {
+	VERIF_LOCK_ACQUIRE(2, rwlock, pthread_rwlock_rdlock(rwlock))
 	return pthread_rwlock_rdlock(rwlock);
 }
 
 static inline int
 rwlock_wrlock(rwlock_t *rwlock)
 {
+	VERIF_LOCK_ACQUIRE(3, rwlock, pthread_rwlock_wrlock(rwlock))
 	return pthread_rwlock_wrlock(rwlock);
 }
 
 static inline int
 rwlock_unlock(rwlock_t *rwlock)
 {
+	VERIF_LOCK_RELEASE(4, rwlock)
 	return pthread_rwlock_unlock(rwlock);
 }
 
